@@ -217,7 +217,7 @@ func (r *Reader) NextFrame() (hdr ws.Header, err error) {
 	if r.fragmented() {
 		if hdr.OpCode.IsControl() {
 			if cb := r.OnIntermediate; cb != nil {
-				err = cb(hdr, frame)
+				err = cb(hdr, payloadReader{frame, &r.raw})
 			}
 			if err == nil {
 				// Ensure that src is empty.
@@ -249,6 +249,21 @@ func (r *Reader) NextFrame() (hdr ws.Header, err error) {
 	}
 
 	return hdr, err
+}
+
+// payloadReader reads a frame payload and reports io.ErrUnexpectedEOF when the
+// source ends before the whole announced payload was read.
+type payloadReader struct {
+	r   io.Reader
+	raw *io.LimitedReader
+}
+
+func (p payloadReader) Read(b []byte) (n int, err error) {
+	n, err = p.r.Read(b)
+	if err == io.EOF && p.raw.N != 0 {
+		err = io.ErrUnexpectedEOF
+	}
+	return n, err
 }
 
 func (r *Reader) fragmented() bool {
